@@ -128,6 +128,21 @@ def generate(prop, rng, run, tier):
     return {"workload": "edit", "property": prop, "config": cfg, "ops": gen.flatten_ops(seq)}
 
 
+# tags StepMania knows (or knew) that are not the standard key or documented alias of the
+# property under test: a key that merely looks related must stay unrelated
+LEGACY_TAGS = ["LASTBEATHINT", "LASTSECONDHINT", "FIRSTBEAT", "LASTBEAT", "FIRSTSECOND", "LASTSECOND",
+               "BGCHANGES2", "BGCHANGES3", "FGCHANGES", "ANIMATIONS", "FREEZES", "FREEZE", "STOP", "DELAYS",
+               "MUSICLENGTH", "MUSICBYTES", "SONGFILENAME", "STEPFILENAME", "HASMUSIC", "HASBANNER",
+               "DISCIMAGE", "DISC", "CDIMAGE", "JACKET", "PREVIEW", "PREVIEWVID", "LYRICSPATH", "LYRICS",
+               "MENUCOLOR", "BPM", "BPMS", "CHANGEBPM", "GAP", "FILE", "DISPLAYTITLE", "DISPLAYARTIST",
+               "CHARTNAME", "CHARTSTYLE", "STEPSTYPE", "NOTETYPE", "STEPS", "NOTES2", "NOTES3", "NOTEDATA",
+               "SAMPLESTART", "SAMPLELENGTH", "SAMPLE", "TITLETRANSLIT", "SUBTITLETRANSLIT", "ARTISTTRANSLIT",
+               "ORIGIN", "GENRE", "CREDIT", "AUTHOR", "DESCRIPTION", "DIFFICULTY", "METER", "RADARVALUES",
+               "OFFSET", "OFFSETS", "TIMESIGNATURES", "TIMESIGNATURE", "TICKCOUNTS", "TICKCOUNT", "COMBOS",
+               "WARPS", "NEGATIVEBPMS", "SPEEDS", "SCROLLS", "FAKES", "LABELS", "KEYSOUNDS", "ATTACKS",
+               "INSTRUMENTTRACK", "SELECTABLE", "DISPLAYBPM", "BACKGROUND", "BANNER", "CDTITLE", "MUSIC"]
+
+
 def _generate_c18(rng):
     obj = rng.choice(["sm", "ssc", "sscchart", "smchart"])
     fmt = "sm" if obj in ("sm", "smchart") else "ssc"
@@ -172,7 +187,8 @@ def _generate_c18(rng):
             std, alias = ATTRS[kind][attr][0], None
         value = rng.choice(["", "v%d" % rng.randint(0, 9), "x", "0.000=1.000", "a:b", "  ", "a\\b",
                             "..\\shared\\banner.png", "\\", "x//y", "a;b", " padded ", "150:150",
-                            "heavy", "l1\nl2", "\u00e9\u3042"])
+                            "heavy", "l1\nl2", "\u00e9\u3042", "0000\n0000\n", "rows\r\n", "\n",
+                            "\nlead", "tab\t"])
         if kind == "smchart":
             opk = gen.wchoice(rng, [("get_attr", 2), ("set_attr", 3), ("del_attr", 1), ("get_key", 2),
                                     ("set_key", 3), ("del_key", 1), ("contains", 1), ("iter", 1),
@@ -196,7 +212,8 @@ def _generate_c18(rng):
             else:
                 op["key"] = rng.choice(["X", "UNRELATED", std.lower(), "FREEZES", "NOTES2", "",
                                         std.capitalize(), "NOTEDATA", "NOTES", "VERSION", "ATTACKS",
-                                        "DISPLAYBPM", "._X", "A B"])
+                                        "DISPLAYBPM", "._X", "A B"]) if rng.random() < 0.5 else \
+                    rng.choice(LEGACY_TAGS + [std + "S", std + "2", std[:-1], "OLD" + std])
         if opk in ("set_attr", "set_key", "update"):
             op["value"] = value
         if opk == "move":
